@@ -89,10 +89,32 @@ IDIOMS = [
 ]
 
 
+def all_idioms():
+    """IDIOMS plus the lists of the further files lib_idioms_*.py (same format), by name (a later duplicate is dropped)"""
+    import glob
+    import importlib
+    import os
+    out, seen = [], set()
+    here = os.path.dirname(os.path.abspath(__file__))
+    mods = sorted(os.path.basename(f)[:-3] for f in glob.glob(os.path.join(here, "lib_idioms_*.py")))
+    lists = [IDIOMS]
+    for m in mods:
+        try:
+            lists.append(list(importlib.import_module(m).MORE))
+        except Exception:
+            continue
+    for lst in lists:
+        for c in lst:
+            if len(c) == 6 and c[0] not in seen:
+                seen.add(c[0])
+                out.append(c)
+    return out
+
+
 def run(ctx, core, pid):
     """run the idioms tagged with `pid` (all of them for C01) on the implementation, the failures again through the plain
     command line; an anonymous function's rendering is only required to be the same on every run"""
-    cs = [c for c in IDIOMS if pid == "C01" or pid in c[1]]
+    cs = [c for c in all_idioms() if pid == "C01" or pid in c[1]]
     rs = core.run_batch("impl", [c[2] for c in cs], path="t.sd")
     ctx.count("idioms:run", len(cs))
     reported = 0
